@@ -77,9 +77,14 @@ impl Property for C13 {
         let only_implicit = rng.chance(1, 2);
         for i in 0..n {
             if Some(i) == continue_at {
-                // leave no function open so that the module is complete
-                ops.push(BOp::EndFunction);
-                ops.push(BOp::Continue);
+                if rng.chance(1, 3) {
+                    // continue from a module with an arbitrary header bound (0 and huge values included)
+                    ops.push(BOp::ContinueFromBound(*rng.pick(&[0u32, 0, 1, 2, 7, 0x7FFF_FFFF, 0x8000_0000, 0xFFFF_FF00])));
+                } else {
+                    // leave no function open so that the module is complete
+                    ops.push(BOp::EndFunction);
+                    ops.push(BOp::Continue);
+                }
             }
             let op = match rng.below(20) {
                 0..=2 => BOp::Id,
@@ -95,7 +100,13 @@ impl Property for C13 {
                 },
                 9..=10 => gen_call(rng, MClass::ModuleLevel).unwrap_or(BOp::Id),
                 11 => BOp::BeginFunction { explicit_id: rng.chance(1, 3), control: 0 },
-                12 => BOp::BeginBlock { explicit_id: rng.chance(1, 3) },
+                12 => {
+                    if rng.chance(1, 3) {
+                        BOp::BeginBlockNoLabel { explicit_id: rng.chance(1, 3) }
+                    } else {
+                        BOp::BeginBlock { explicit_id: rng.chance(1, 3) }
+                    }
+                }
                 13 => BOp::Parameter,
                 // block methods allocate the implicit result id BEFORE they notice that no block is selected
                 14..=16 => gen_call(rng, MClass::Block).unwrap_or(BOp::Id),
@@ -165,7 +176,8 @@ impl Property for C13 {
                 cov.triple(rep.kind as u32 * 8 + cls, rep.explicit_rid.is_some() as u32, rep.ret.is_err() as u32);
                 // explicit ids were taken from the builder right before the call: they are fresh ids too
                 if let Some(x) = rep.explicit_rid {
-                    if d.all_ids[before_ids..].contains(&x) {
+                    // (an id reserved by an earlier id() call was already checked when it was handed out)
+                    if d.all_ids[before_ids..].contains(&x) && !fresh.contains(&x) {
                         if let Some(v) = check_fresh(&mut fresh, x, step, "id() [explicit result id]") {
                             violation = Some(v);
                         }
@@ -175,6 +187,12 @@ impl Property for C13 {
                     break;
                 }
                 if rep.kind == CallKind::Continue {
+                    if matches!(op, BOp::ContinueFromBound(_)) {
+                        // a new id space: monotonicity restarts at the given bound
+                        fresh.clear();
+                        implicit_requests.clear();
+                        pre_continue_probe = None;
+                    }
                     if let Some(bound) = d.continued_from_bound {
                         // continuing an existing module: allocation starts at the header bound
                         let probe = d.b.id();
